@@ -130,7 +130,12 @@ def reserved_story(draw):
             "seed": draw(st.integers(0, 50)), "event_budget": 400}
 
 
-def class_matrix_profile(blocked=False):
+def class_matrix_profile(blocked=False, sched=False):
+    if sched:
+        w = {"tracker": 1.0, "cc_waiting": 1.0, "schedule": 1.0, "sched_preempt": 0.3, "priorities": 0.3, "batching": 0.5, "cc_after": 0.2, "self_loops": 0.3,
+             "discipline": 0.2, "reneging": 0.2}
+        return S.Profile(list(w), weights=w, required=("tracker", "cc_waiting", "schedule"), numeric="grid", max_nodes=2, max_classes=3, plans=("max_time",),
+                         horizon=(8.0, 20.0), budget=600, load="heavy", max_c=3, tracker_kinds=("NodeClassMatrix",), excluded=common.EXCL["C17"])
     if blocked:
         w = {"tracker": 1.0, "priorities": 1.0, "prio_preempt": 1.0, "cc_waiting": 1.0, "cc_after": 1.0, "schedule": 1.0, "sched_preempt": 1.0, "capacity": 1.0,
              "self_loops": 0.5, "batching": 0.3, "discipline": 0.2}
@@ -218,6 +223,10 @@ def subchecks(tier):
                         n={"quick": 3600, "thorough": 20000},
                         rule="NodeClassMatrix under every way a customer's class or place changes: class change while waiting and after service, "
                              "pre-emptive priorities (incl. reroute) and schedules, reneging; same truth monitor"),
+        system_subcheck("class_matrix_sched", class_matrix_profile(sched=True), lambda spec: [TrackerTruth(spec)],
+                        lambda a, spec, res: a.get("ev_class_change", 0) >= 2 and a.get("ev_shift_change", 0) >= 2, classes=classes, n={"quick": 3000, "thorough": 20000},
+                        rule="NodeClassMatrix with timed class changes at scheduled nodes (shift starts that put several waiting customers into service at once), "
+                             "classes that often share a priority"),
         system_subcheck("class_matrix_blocked", class_matrix_profile(blocked=True), lambda spec: [TrackerTruth(spec)],
                         lambda a, spec, res: a.get("ev_class_change", 0) >= 1 and a.get("rec_interrupted_service", 0) >= 1 and a.get("blocked_seen", 0) >= 1,
                         classes=classes, n={"quick": 3600, "thorough": 20000},
